@@ -167,6 +167,11 @@ func init() {
 	harnessAPI["vRealLe"] = func(r *Run, fr *frame, args []Value) Value {
 		return r.floatCmp(fr, token.LEQ, args[0].(Float), args[1].(Float))
 	}
+	harnessAPI["vSettle"] = func(r *Run, fr *frame, args []Value) Value {
+		g := fr.g
+		r.block(fr, "settle", func() bool { return len(r.runnable(g)) == 0 })
+		return nil
+	}
 	harnessAPI["vTimersQuiet"] = func(r *Run, fr *frame, args []Value) Value {
 		r.timersQuiet = true
 		r.noteAssumption("one-shot timers (time.NewTimer / time.After: time-outs) never fire in this harness; tickers do")
@@ -523,7 +528,33 @@ func init() {
 		}
 		return Iface{}
 	}, "github.com/spf13/viper.UnmarshalKey")
-	reg(func(r *Run, fr *frame, args []Value) Value { return "/home/verif/.dastard/config.yaml" }, "github.com/spf13/viper.ConfigFileUsed")
+	reg(func(r *Run, fr *frame, args []Value) Value {
+		if r.viperFile != "" {
+			return r.viperFile
+		}
+		return "/home/verif/.dastard/config.yaml"
+	}, "github.com/spf13/viper.ConfigFileUsed")
+	reg(func(r *Run, fr *frame, args []Value) Value {
+		r.viperFile = args[0].(string)
+		return nil
+	}, "github.com/spf13/viper.SetConfigFile")
+	reg(func(r *Run, fr *frame, args []Value) Value {
+		// writes an opaque snapshot of the store: distinct content for every call
+		name := args[0].(string)
+		r.fsOp("writeconfig " + name)
+		r.viperSerial++
+		txt := fmt.Sprintf("viper-config#%d:", r.viperSerial)
+		for _, k := range sortedKeys(r.viper) {
+			txt += k + ";"
+		}
+		f := r.fs().get(name)
+		f.exists, f.isDir = true, false
+		f.content = nil
+		for i := 0; i < len(txt); i++ {
+			f.content = append(f.content, r.tt.Const(8, uint64(txt[i])))
+		}
+		return Iface{}
+	}, "github.com/spf13/viper.WriteConfigAs", "github.com/spf13/viper.WriteConfig")
 }
 
 // deepCopy copies aggregates and slices (restored configuration must not alias the saved one)
@@ -566,4 +597,42 @@ func init() {
 		return Tuple{out, Iface{}}
 	}
 	reg(tok, "encoding/json.Marshal", "encoding/json.MarshalIndent")
+}
+
+// ---- zmq4: opaque sockets (what is sent is observed through the verif hook in publish)
+func init() {
+	reg(func(r *Run, fr *frame, args []Value) Value {
+		var cell Value = Struct{}
+		return Tuple{&cell, Iface{}}
+	}, "github.com/pebbe/zmq4.NewSocket")
+	reg(func(r *Run, fr *frame, args []Value) Value { return Iface{} },
+		"(*github.com/pebbe/zmq4.Socket).Bind", "(*github.com/pebbe/zmq4.Socket).Close", "(*github.com/pebbe/zmq4.Socket).SetSndhwm",
+		"(*github.com/pebbe/zmq4.Socket).Connect", "(*github.com/pebbe/zmq4.Socket).SetLinger")
+	reg(func(r *Run, fr *frame, args []Value) Value { return Tuple{r.tt.Const(64, 1), Iface{}} },
+		"(*github.com/pebbe/zmq4.Socket).SendMessage", "(*github.com/pebbe/zmq4.Socket).SendBytes", "(*github.com/pebbe/zmq4.Socket).Send")
+}
+
+// ---- reflect.TypeOf(x).String(): the type's name as text (used for log lines only)
+func init() {
+	reg(func(r *Run, fr *frame, args []Value) Value {
+		iv, _ := args[0].(Iface)
+		name := "<nil>"
+		if iv.T != nil {
+			name = iv.T.String()
+		}
+		rp := r.eng.prog.ImportedPackage("reflect")
+		if rp == nil || rp.Type("rtype") == nil {
+			fr.unsupported("reflect package not loaded")
+		}
+		var cell Value = name
+		return Iface{T: types.NewPointer(rp.Type("rtype").Type()), V: &cell}
+	}, "reflect.TypeOf")
+	reg(func(r *Run, fr *frame, args []Value) Value {
+		if p, ok := args[0].(*Value); ok && p != nil {
+			if s, ok := (*p).(string); ok {
+				return s
+			}
+		}
+		return "<type>"
+	}, "(*reflect.rtype).String", "(*reflect.rtype).Name")
 }
